@@ -22,7 +22,7 @@ PID = 'C12'
 PROPS_MODULE = 'SympdeModel.Props.C12'
 GEN = [identity.generate]
 LEANCHECKER = True
-RULE = ('computations = 18 parametrised recipes on the real API (joins of patches with symbolic mappings and lowerings on the same objects with / without an earlier join, symmetric products of same-class operands over one function, chains of coordinate operators, catalogue mappings with numeric parameter sets, sums of integrals over different regions in every operand order and association, interface forms with explicit normals / Dn / jump / avg, TerminalExpr of grad/laplace/dot/div/curl/rot, bilinear forms with '
+RULE = ('computations = 19 parametrised recipes on the real API (multi-patch domains built directly from interiors + boundaries with patches of different bounds listed in any order: dtype / todict / export-from_file against the recipe\'s own table, joins of patches with symbolic mappings and lowerings on the same objects with / without an earlier join, symmetric products of same-class operands over one function, chains of coordinate operators, catalogue mappings with numeric parameter sets, sums of integrals over different regions in every operand order and association, interface forms with explicit normals / Dn / jump / avg, TerminalExpr of grad/laplace/dot/div/curl/rot, bilinear forms with '
         'domain and boundary integrals, LogicalExpr on plain / polar / identity mapped squares for every space kind, SymbolicExpr, '
         'derivative-index helpers, hodge/d/infere_type on differential forms, Union, Domain.join + todict, Dot/Inner of permuted '
         'operands, Equation with essential BCs, mapped n-cubes) with names drawn from small pools; case = (history of 1-6 '
